@@ -705,6 +705,9 @@ MAPPER_WORKLOADS = {
                       ("E3", {"T2": ["m", "p"], "W2": ["p", "q"], "T3": ["m", "q"]}, "T3")],
 }
 
+MAPPER_WORKLOADS["one_matmul"] = [("E1", {"T0": ["m", "k"], "W0": ["k", "n"], "T1": ["m", "n"]}, "T1")]
+MAPPER_WORKLOADS["one_matvec"] = [("E1", {"T0": ["m", "k"], "W0": ["k"], "T1": ["m"]}, "T1")]
+
 MAPPER_ARCHS = {
     # name: list of components (tensors = the keep / may_keep text)
     "may_keep_main": [("Memory", "Main", "{keep: ~Intermediates, may_keep: All}"), ("Toll", "G1", "{keep: All}"), ("Memory", "Buf", "{keep: All}")],
@@ -718,7 +721,29 @@ MAPPER_ARCHS = {
     "only_toll_may_hold": [("Memory", "Main", "{keep: ~Intermediates}"), ("Toll", "G1", "{keep: All}"), ("Memory", "Buf", "{keep: ~Intermediates}")],
     "three_levels": [("Memory", "Main", "{keep: ~Intermediates, may_keep: All}"), ("Toll", "G1", "{keep: All}"), ("Memory", "Mid", "{may_keep: All}"), ("Toll", "G2", "{keep: All}"),
                      ("Memory", "Buf", "{keep: All}")],
+    # a Toll below (at least) two memory levels: used by the template-level part
+    "toll_below_two": [("Memory", "Main", "{keep: ~Intermediates, may_keep: All}"), ("Memory", "Mid", "{may_keep: All}"), ("Toll", "G1", "{keep: All}"), ("Memory", "Buf", "{keep: All}")],
+    "toll_below_two_keep": [("Memory", "Main", "{keep: ~Intermediates, may_keep: All}"), ("Memory", "Mid", "{keep: All}"), ("Toll", "G1", "{keep: All}"), ("Memory", "Buf", "{may_keep: All}")],
+    "may_toll_below_two": [("Memory", "Main", "{keep: ~Intermediates, may_keep: All}"), ("Memory", "Mid", "{may_keep: All}"), ("Toll", "G1", "{may_keep: All}"), ("Memory", "Buf", "{keep: All}")],
+    "two_tolls_below_two": [("Memory", "Main", "{keep: ~Intermediates, may_keep: All}"), ("Memory", "Mid", "{may_keep: All}"), ("Toll", "G1", "{keep: Inputs}"), ("Toll", "G2", "{keep: Outputs | Intermediates}"),
+                            ("Memory", "Buf", "{keep: All}")],
+    "loose_mid": [("Memory", "Main", "{keep: ~Intermediates, may_keep: All}"), ("Memory", "Mid", "{may_keep: All, force_memory_hierarchy_order: false}"), ("Toll", "G1", "{keep: All}"),
+                  ("Memory", "Buf", "{keep: All, force_memory_hierarchy_order: false}")],
 }
+
+# mapper settings that change how storage / Toll nodes are ordered and which templates exist (accelforge/frontend/mapper/ffm.py)
+MAPPER_OPTION_SETS = [
+    {},
+    {"force_memory_hierarchy_order": False},
+    {"_can_lower_outermost_memory": True},
+    {"force_memory_hierarchy_order": False, "_can_lower_outermost_memory": True},
+    {"prioritize_reuse_of_unfused_tensors": True},
+    {"force_memory_hierarchy_order": False, "prioritize_reuse_of_unfused_tensors": True},
+    {"explore_loop_orders": False},
+    {"_timeloop_style_even": True},
+    {"_let_non_intermediate_tensors_respawn_in_backing_storage": True, "force_memory_hierarchy_order": False},
+    {"max_fused_loops": 0, "force_memory_hierarchy_order": False},
+]
 
 
 def _mapper_case(rnd, tier, idx):
@@ -784,6 +809,56 @@ def _flat_nodes(real_nodes):
     return mp
 
 
+def _toll_order_violation(nodes, arch):
+    """nodes: real mapping nodes of one Einsum.  A Toll node of tensor T must sit below every Storage / Toll node of T whose
+    component is above the Toll in the architecture, and above every Storage / Toll node of T whose component is below it
+    (the Toll is crossed on the way between the level above and the level below).  -> text of the first violation or None."""
+    idx = {c["name"]: i for i, c in enumerate(arch)}
+    holders = []
+    for pos, n in enumerate(nodes):
+        cls = type(n).__name__
+        if cls in ("Storage", "Toll"):
+            holders.append((pos, cls, str(n.component), [str(t) for t in n.tensors]))
+    for pos, cls, comp, tensors in holders:
+        if cls != "Toll":
+            continue
+        for t in tensors:
+            for pos2, cls2, comp2, tensors2 in holders:
+                if pos2 == pos or t not in tensors2 or comp2 == comp:
+                    continue
+                if idx[comp2] < idx[comp] and pos2 > pos:
+                    return f"Toll node [{t} in {comp}] (node {pos}) is above [{t} in {comp2}] (node {pos2}) although {comp2} is above {comp} in the architecture"
+                if idx[comp2] > idx[comp] and pos2 < pos:
+                    return f"Toll node [{t} in {comp}] (node {pos}) is below [{t} in {comp2}] (node {pos2}) although {comp2} is below {comp} in the architecture"
+    return None
+
+
+def _toll_holds_what_it_must(nodes, case, einsum_tensors, out, shared):
+    """A Toll whose `tensors` text is exactly {keep: All} must have a node for every tensor of the Einsum that a Memory above
+    it holds (all of them reach the compute through it); a tensor that no Memory above it holds cannot have the Toll as its
+    first holder and has no Toll node.  -> text or None."""
+    held = {}
+    for n in nodes:
+        if type(n).__name__ == "Toll":
+            held.setdefault(str(n.component), set()).update(str(t) for t in n.tensors)
+    idx = {c["name"]: i for i, c in enumerate(case["arch"])}
+    above = {}
+    for n in nodes:
+        if type(n).__name__ == "Storage":
+            for t in n.tensors:
+                above.setdefault(str(t), set()).add(str(n.component))
+    for c in case["arch"]:
+        if c["kind"] != "Toll" or c.get("tensors", "{keep: All}") != "{keep: All}":
+            continue
+        for t in einsum_tensors:
+            if t in held.get(c["name"], set()):
+                continue
+            if not any(idx[m] < idx[c["name"]] for m in above.get(t, ())):
+                continue  # no Memory above the Toll holds the tensor: the Toll cannot be its first holder, so it has no node for it
+            return f"Toll {c['name']} (keep: All) has no node for tensor {t}"
+    return None
+
+
 def _check_mapper_case(case):
     """-> (failure or None, number of returned mappings, number of (Einsum, Toll, tensor) read counts compared)"""
     from accelforge.frontend.mapper.metrics import Metrics
@@ -806,11 +881,19 @@ def _check_mapper_case(case):
     if "LATENCY" in case["metrics"]:
         m = m | Metrics.LATENCY
     spec.mapper.metrics = m
+    for k, v in (case.get("options") or {}).items():
+        if not hasattr(spec.mapper, k):
+            raise AttributeError(f"mapper setting {k} does not exist")
+        setattr(spec.mapper, k, v)
+    if case.get("template") is not None:
+        spec.mapper._only_output_pmapping_with_index = case["template"]
     try:
         res = spec.map_workload_to_arch(print_progress=False)
     except Exception as ex:
         if case["arch_name"] == "only_toll_may_hold":
             return None, 0, 0  # nothing is returned, which is what the rule asks for here
+        if case.get("template") is not None and isinstance(ex, ValueError) and "No pmappings" in str(ex):
+            return None, -1, 0  # no template with this index (or it has no valid tile shape): nothing is returned
         return fail(f"{type(ex).__name__}: {str(ex)[:300]}", "mappings, none of which has a Toll as the outermost holder of a shared tensor",
                     "map_workload_to_arch raised on a small valid spec with a Toll"), 0, 0
     data = res.data
@@ -826,6 +909,15 @@ def _check_mapper_case(case):
                 if t in tens and _first_holder_is_toll(nodes, t, toll_names):
                     return fail(f"row {ri}, Einsum {name}: first holder of {t} is a Toll: " + " > ".join(n.compact_str() for n in nodes if type(n).__name__ != "Reservation"),
                                 f"the first holder of the shared tensor {t} is a Memory", "outermost holder of a shared tensor in a mapping returned by the mapper"), len(data), compared
+            text = " > ".join(n.compact_str() for n in nodes if type(n).__name__ != "Reservation")
+            bad_order = _toll_order_violation(nodes, case["arch"])
+            if bad_order:
+                return fail(f"row {ri}, Einsum {name}: {bad_order}: {text}", "every Toll node of a tensor sits between the holders of that tensor above and below it in the architecture",
+                            "position of a Toll node in a mapping returned by the mapper"), len(data), compared
+            missing = _toll_holds_what_it_must(nodes, case, list(tens), out, shared)
+            if missing:
+                return fail(f"row {ri}, Einsum {name}: {missing}: {text}", "a Toll that keeps All is crossed by (has a node for) every tensor of the Einsum",
+                            "a tensor bypasses a Toll that must keep it in a mapping returned by the mapper"), len(data), compared
             mp = _flat_nodes(nodes)
             if mp is None:
                 continue
